@@ -196,6 +196,42 @@ def embeddings_bt(padj, plab, tadj, tlab, wild, cap=None):
     return out
 
 
+def embeddings_pred(padj, tadj, node_ok, edge_ok, cap=None):
+    """induced embeddings under caller-supplied predicates (the definition with the element rule replaced):
+    injective, bonded pattern pairs go to bonded target pairs and non-bonded to non-bonded,
+    node_ok(i, t) for every pattern vertex i -> target vertex t, and
+    edge_ok(frozenset((i, j)), frozenset((t, u))) for every bonded pattern pair (i, j) -> (t, u).  Exact; TooMany past cap."""
+    pn, tn = len(padj), len(tadj)
+    out = []
+    img = [None] * pn
+    used = [False] * tn
+
+    def rec(i):
+        if i == pn:
+            out.append(tuple(img))
+            if cap is not None and len(out) > cap:
+                raise TooMany()
+            return
+        for t in range(tn):
+            if used[t] or not node_ok(i, t):
+                continue
+            ok = True
+            for j in range(i):
+                pb = j in padj[i]
+                if pb != (img[j] in tadj[t]) or (pb and not edge_ok(frozenset((i, j)), frozenset((t, img[j])))):
+                    ok = False
+                    break
+            if ok:
+                img[i] = t
+                used[t] = True
+                rec(i + 1)
+                used[t] = False
+                img[i] = None
+
+    rec(0)
+    return out
+
+
 # ------------------------------------------------------------------------------------------
 # second opinion (networkx on plain integer graphs with plain labels)
 
@@ -235,6 +271,35 @@ def nx_embeddings(pn, pedges, plab, tn, tedges, tlab, wild):
     return out
 
 
+def nx_embeddings_pred(pn, pedges, tn, tedges, node_ok, edge_ok):
+    import networkx as nx
+
+    gp, gt = nx.Graph(), nx.Graph()
+    for i in range(pn):
+        gp.add_node(i, v=i)
+    for i in range(tn):
+        gt.add_node(i, v=i)
+    for i, j in pedges:
+        gp.add_edge(i, j, key=frozenset((i, j)))
+    for i, j in tedges:
+        gt.add_edge(i, j, key=frozenset((i, j)))
+    gm = nx.isomorphism.GraphMatcher(gt, gp, node_match=lambda t, p: node_ok(p["v"], t["v"]),
+                                     edge_match=lambda t, p: edge_ok(p["key"], t["key"]))
+    out = []
+    for iso in gm.subgraph_isomorphisms_iter():
+        inv = {p: t for t, p in iso.items()}
+        out.append(tuple(inv[i] for i in range(pn)))
+    return out
+
+
+def cross_check_embeddings_pred(pn, pedges, tn, tedges, node_ok, edge_ok, mine):
+    other = nx_embeddings_pred(pn, pedges, tn, tedges, node_ok, edge_ok)
+    if len(other) != len(set(other)) or set(other) != set(mine) or len(mine) != len(set(mine)):
+        raise ReferenceDisagreement(
+            f"embeddings under predicates: own={sorted(mine)[:8]} networkx={sorted(other)[:8]} "
+            f"pattern=({pn},{pedges}) target=({tn},{tedges})")
+
+
 def cross_check_bridges(n, edges, mine):
     other = nx_bridges(n, edges)
     if other != mine:
@@ -261,6 +326,11 @@ def is_connected(n, edges):
 def connected_masks(n):
     pairs = pair_list(n)
     return [m for m in range(n_graphs(n)) if is_connected(n, edges_of_mask(n, m, pairs))]
+
+
+def disconnected_masks(n):
+    pairs = pair_list(n)
+    return [m for m in range(n_graphs(n)) if n >= 2 and not is_connected(n, edges_of_mask(n, m, pairs))]
 
 
 def random_tree(rng, n, max_deg=4):
